@@ -34,13 +34,18 @@ def structModel (fem : Nat) (hasSkin hasSpar : Bool) : Outcome :=
   else if fem = 1 then (if hasSkin && hasSpar then .ok else if hasSkin || hasSpar then .nameError else .ok)
   else .nameError
 
-/-- `build_sections`: every per-section list must have `num_sections` entries -/
+/-- `build_sections`: every per-section list must have `num_sections` entries.  With generated meshes `ny`, `taper`,
+`span`, `sweep` are checked before the meshes are generated; with user-provided meshes the list of meshes is; then the
+section names; then every list-valued per-section key of the dictionary (`taper`, `span`, `sweep` here; `ny` is only
+read by the mesh generator). -/
 def sections (num : Nat) (genMeshes : Bool) (lenNy lenTaper lenSpan lenSweep lenMeshes lenNames : Nat) : Outcome :=
   if genMeshes then
     if lenNy ≠ num then .valueError else if lenTaper ≠ num then .valueError else if lenSpan ≠ num then .valueError
     else if lenSweep ≠ num then .valueError else if lenNames ≠ num then .valueError else .ok
   else
-    if lenMeshes ≠ num then .valueError else if lenNames ≠ num then .valueError else .ok
+    if lenMeshes ≠ num then .valueError else if lenNames ≠ num then .valueError
+    else if lenTaper ≠ num then .valueError else if lenSpan ≠ num then .valueError
+    else if lenSweep ≠ num then .valueError else .ok
 
 /-- `check_surface_dict_keys`: a key that is not in the implemented list produces a warning -/
 def warns (implemented : List String) (key : String) : Bool := !implemented.contains key
